@@ -1,6 +1,6 @@
 (* C11 — lemmas about the REST model (server side): routing over the generated table, the handlers against the
    hand-written spec_expect, fail-closed, single document, authentication, soundness of the boolean monitor. *)
-From V Require Import Base.Common Base.C11_Http Gen.RestRoutes Gen.RestClient Model.C11_Rest Model.C11_Check.
+From V Require Import Base.Common Base.C11_Http Gen.RestRoutes Gen.RestClient Model.C11_Rest Model.C11_Check Model.C11_Tables.
 Open Scope string_scope.
 Open Scope list_scope.
 
@@ -22,42 +22,11 @@ Lemma error_sites_all_return :
   forallb (fun f : string * list (string * string) * list string * list bool => forallb (fun b => b) (snd f)) rest_funcs = true.
 Proof. vm_compute. reflexivity. Qed.
 
-(* what each route NAME denotes: the RPC call sites its handler may contain ("Service.Method", source order).
-   Hand-written; /add goes through the adder helper, which issues BlockAllocate, BlockPut and the final Pin. *)
-Definition named_ops : list (string * list string) := [
-  ("ID", ["Cluster.ID"]); ("Version", ["Cluster.Version"]); ("Peers", ["Cluster.Peers"]); ("PeerAdd", ["Cluster.PeerAdd"]);
-  ("PeerRemove", ["Cluster.PeerRemove"]); ("Add", ["adderutils.AddMultipartHTTPHandler"]);
-  ("Allocations", ["Cluster.Pins"]); ("Allocation", ["Cluster.PinGet"]);
-  ("StatusAll", ["Cluster.StatusAllLocal"; "Cluster.StatusAll"]); ("Recover", ["Cluster.RecoverLocal"; "Cluster.Recover"]);
-  ("RecoverAll", ["Cluster.RecoverAllLocal"; "Cluster.RecoverAll"]); ("Status", ["Cluster.StatusLocal"; "Cluster.Status"]);
-  ("Pin", ["Cluster.Pin"]); ("PinPath", ["Cluster.PinPath"]); ("Unpin", ["Cluster.Unpin"]); ("UnpinPath", ["Cluster.UnpinPath"]);
-  ("RepoGC", ["Cluster.RepoGCLocal"; "Cluster.RepoGC"]); ("ConnectionGraph", ["Cluster.ConnectGraph"]); ("Alerts", ["Cluster.Alerts"]);
-  ("Metrics", ["PeerMonitor.LatestMetrics"]); ("MetricNames", ["PeerMonitor.MetricNames"])].
-
-Definition func_rpcs (hn : string) : option (list string) :=
-  match find (fun f : string * list (string * string) * list string * list bool => String.eqb (fst (fst (fst f))) hn) rest_funcs with
-  | Some (_, cs, _, _) => Some (map (fun c : string * string => (fst c ++ "." ++ snd c)%string) cs)
-  | None => None
-  end.
-
-Definition strs_eqb := list_eqb String.eqb.
-
-Definition route_ops_okb (r : string * string * string * string) : bool :=
-  let '(name, _, _, hn) := r in
-  match func_rpcs hn, sget name named_ops with
-  | Some got, Some want => strs_eqb got want
-  | _, _ => false
-  end.
-
 Lemma route_ops_all : forallb route_ops_okb rest_routes = true.
 Proof. vm_compute. reflexivity. Qed.
 
 Lemma route_ops_each r : In r rest_routes -> route_ops_okb r = true.
 Proof. intros H. exact (proj1 (forallb_forall _ _) route_ops_all r H). Qed.
-
-(* the RPC names the model can issue for a call-site name *)
-Definition model_names (site : string) : list string :=
-  if String.eqb site "adderutils.AddMultipartHTTPHandler" then ["Cluster.BlockAllocate"; "IPFSConnector.BlockPut"; "Cluster.Pin"] else [site].
 
 (* ------------------------------------------------------------------------------------------ *)
 (* small facts                                                                                *)
@@ -358,19 +327,6 @@ Qed.
 Lemma handle_ops h vars q e exp : spec_expect h vars q e = Ops exp -> ops_ok h e exp (handle h vars q e).
 Proof. intros H. apply ops_okb_sound. apply handle_ops_b with (vars := vars) (q := q). exact H. Qed.
 
-(* every call a handler issues carries one of the RPC names its class denotes (hand-written) *)
-Definition handler_rpc_names (h : rhandler) : list string :=
-  match h with
-  | RId => ["Cluster.ID"] | RVersion => ["Cluster.Version"] | RPeers => ["Cluster.Peers"] | RPeerAdd => ["Cluster.PeerAdd"]
-  | RPeerRemove => ["Cluster.PeerRemove"] | RAdd => ["Cluster.BlockAllocate"; "IPFSConnector.BlockPut"; "Cluster.Pin"]
-  | RAllocations => ["Cluster.Pins"] | RAllocation => ["Cluster.PinGet"]
-  | RStatusAll => ["Cluster.StatusAllLocal"; "Cluster.StatusAll"] | RRecover => ["Cluster.RecoverLocal"; "Cluster.Recover"]
-  | RRecoverAll => ["Cluster.RecoverAllLocal"; "Cluster.RecoverAll"] | RStatus => ["Cluster.StatusLocal"; "Cluster.Status"]
-  | RPin => ["Cluster.Pin"] | RPinPath => ["Cluster.PinPath"] | RUnpin => ["Cluster.Unpin"] | RUnpinPath => ["Cluster.UnpinPath"]
-  | RRepoGC => ["Cluster.RepoGCLocal"; "Cluster.RepoGC"] | RGraph => ["Cluster.ConnectGraph"] | RAlerts => ["Cluster.Alerts"]
-  | RMetrics => ["PeerMonitor.LatestMetrics"] | RMetricNames => ["PeerMonitor.MetricNames"] | RUnknown => []
-  end.
-
 Lemma performed_names obs : forall exp c, performed obs exp -> In c obs -> In (fst (fst c)) (map fst exp).
 Proof.
   induction obs as [|x obs IH]; intros exp c H Hin; [contradiction|].
@@ -391,15 +347,6 @@ Proof.
   - rewrite (handle_refuse h vars q e Hh E) in Hin. contradiction.
   - apply (spec_expect_names _ _ _ _ _ E). eapply performed_names; [|exact Hin]. apply (oo_performed _ _ _ _ (handle_ops _ _ _ _ _ E)).
 Qed.
-
-(* generated call sites (by route name) = the names the handler class may issue *)
-Definition route_model_okb (r : string * string * string * string) : bool :=
-  let '(name, _, _, hn) := r in
-  match sget name named_ops with
-  | Some sites => strs_eqb (flat_map model_names sites) (handler_rpc_names (rhandler_of_name hn))
-                  && negb (is_nil (handler_rpc_names (rhandler_of_name hn)))
-  | None => false
-  end.
 
 Lemma route_model_all : forallb route_model_okb rest_routes = true.
 Proof. vm_compute. reflexivity. Qed.
